@@ -1,5 +1,6 @@
 import ArgoVerif.Proofs.KTable
 import ArgoVerif.Proofs.KTableRaceT
+import ArgoVerif.Proofs.KTableConcX
 /-
 Props.C16 — work-unit-local storage behaves as an independent key→value map per
 work unit.  Property theorems only; lemmas live in Proofs/KTable.lean (sequential
@@ -246,5 +247,138 @@ example : ∃ tr s, Star (Step { g := ⟨108, 32, 8, 16, 32⟩, size := 1, n := 
                                val := fun t => t + 1, faults := false }) CSt.init tr s ∧
     s.pc 0 = .done true ∧ s.pc 1 = .done true ∧ tget s.tbl 2 = 1 ∧ tget s.tbl 3 = 2 :=
   race_success_example
+
+/-! ### concurrent `ABTI_ktable_set` / `ABTI_ktable_get` on one table (Model.KTableConc)
+
+Any number of actors (the owner and other work units / external threads), each repeatedly
+calling set (safe variant: lock-free walk, lock, re-walk, append, unlock; or the non-safe variant
+on a private table) and get (lock-free walk, plain read), interleaved at the granularity of the
+atomic operations of abti_key.h plus the plain `value` accesses.  All theorems quantify over
+every accepted run of `machine c` (equivalently, by `Proofs.run_inv`, every run of the relational
+`Step`), i.e. over all interleavings, table sizes ≥ 1, keys and values. -/
+section conc
+open ArgoVerif.Model.KTableConc
+
+theorem ktconc_reach (c : Cfg) (tr : List Ev) (s : St) (h : (machine c).run (init c) tr = some s) :
+    Star (Step c) (init c) tr s ∧ PInv s ∧ TInv c s :=
+  run_inv c tr (init c) s (pinv_init c) (tinv_init c) h
+
+/-- **C16 (concurrent: chains stay well formed, one element per key)**.  In every reachable state
+every element sits in the bucket its key id selects, carries its key's destructor, and no chain
+holds two elements with the same key id — also when several callers insert the same new key, or
+different new keys of one bucket, at the same time. -/
+theorem ktconc_chains_well_formed (c : Cfg) (hsz : 0 < c.size) (tr : List Ev) (s : St)
+    (h : (machine c).run (init c) tr = some s) :
+    WF c.kd s.tbl ∧ s.tbl.size = c.size ∧ ∀ b, ((s.tbl.b b).map (·.keyId)).Nodup := by
+  obtain ⟨_, _, ht⟩ := ktconc_reach c tr s h
+  exact ⟨tinv_wf c s hsz ht, ht.size, ht.nodup⟩
+
+/-- **C16 (concurrent: nothing is ever unlinked or overwritten)**.  Once an element is linked at
+position `i` of a chain it stays exactly there in every later state of the run (same key id,
+destructor and storage; only `value` may change): elements are only ever added at the tail. -/
+theorem ktconc_append_only (c : Cfg) (tr1 tr2 : List Ev) (s1 s2 : St)
+    (h1 : (machine c).run (init c) tr1 = some s1) (h2 : (machine c).run s1 tr2 = some s2) :
+    ∀ (b i : Nat) (x : Elem), (s1.tbl.b b)[i]? = some x →
+      ∃ x', (s2.tbl.b b)[i]? = some x' ∧ sameElem x x' := by
+  obtain ⟨_, hp, ht⟩ := ktconc_reach c tr1 s1 h1
+  obtain ⟨hst, _, _⟩ := run_inv c tr2 s1 s2 hp ht h2
+  exact star_append_only c tr2 s1 s2 hp ht hst
+
+/-- **C16 (concurrent: the publishing store hits the tail)**.  Whenever a caller is about to
+release-store its new element into link `j`, that link is the current tail (`j` = chain length,
+i.e. the link is NULL) and the key is not in the chain: the re-walk under the lock makes the
+remembered `pp_elem` current again.  (So the tail guard of the executable `exec` never rejects a
+behaviour of the model; it only rejects observed traces that are not behaviours.) -/
+theorem ktconc_publish_at_tail (c : Cfg) (tr : List Ev) (s : St) (h : (machine c).run (init c) tr = some s)
+    (a : Actor) (k : Key) (v : Val) (sf : Bool) (j blk : Nat) (hpc : s.pc a = .pub k v sf j blk) :
+    j = (chain c s k.id).length ∧ k.id ∉ (chain c s k.id).map (·.keyId) ∧
+    (sf = true → s.lock = some a) ∧ (sf = false → s.priv = some a) := by
+  obtain ⟨_, hp, ht⟩ := ktconc_reach c tr s h
+  have := ht.pubc a k.id j (by rw [hpc]; rfl)
+  refine ⟨by rw [this.1, ks_chain, List.length_map], this.2, ?_, ?_⟩
+  · intro hs; subst hs; exact hp.lock1 a (by rw [hpc]; rfl)
+  · intro hs; subst hs; exact hp.priv1 a (by rw [hpc]; rfl)
+
+/-- **C16 (concurrent: get is linearizable)**.  `hist kid` lists every value stored under `kid`
+in store order (each entry is written by a set that is in progress at that moment); the abstract
+value of the key is its last entry (NULL if empty).  A get that is about to return `r` was
+called when the history had `h0` entries and read `value` when it had `hr`: either it found no
+element and the key had never been set when it was called (`r = NULL`), or `r` is entry `hr-1`
+with `h0 ≤ hr`: the value that was current at the call (stored by the latest set whose store
+preceded the call) or a value stored by an overlapping set — the abstract value at some moment
+inside the get's own interval. -/
+theorem ktconc_get_linearizable (c : Cfg) (tr : List Ev) (s : St) (h : (machine c).run (init c) tr = some s)
+    (a : Actor) (kid h0 : Nat) (r : Val) (hr : Nat) (hpc : s.pc a = .gret kid h0 r hr) :
+    (hr = 0 ∧ r = 0 ∧ h0 = 0) ∨
+    (h0 ≤ hr ∧ 1 ≤ hr ∧ hr ≤ (s.hist kid).length ∧ (s.hist kid)[hr - 1]? = some r) := by
+  obtain ⟨_, _, ht⟩ := ktconc_reach c tr s h
+  rcases ht.gret a kid h0 r hr hpc with h1 | ⟨h1, h2, h3⟩
+  · exact Or.inl h1
+  · have := lt_of_getElem?_some _ _ _ h3
+    exact Or.inr ⟨h1, h2, by omega, h3⟩
+
+/-- **C16 (concurrent: last-writer map)**.  In every reachable state — in particular once all sets
+have returned — a lookup of any key id yields the value stored last under it (NULL if none):
+no set is lost, whatever raced with it. -/
+theorem ktconc_last_writer_map (c : Cfg) (tr : List Ev) (s : St) (h : (machine c).run (init c) tr = some s)
+    (k : Nat) : tget s.tbl k = absVal s k := by
+  obtain ⟨_, _, ht⟩ := ktconc_reach c tr s h
+  exact tinv_tget c s ht k
+
+/-- **C16 (concurrent: destructors)**.  Whatever interleaving built the table, `ABTI_ktable_free`
+(run when no access is in progress: the `free` event requires every actor idle) calls, for each
+key id, its destructor exactly once with the last value stored iff both are non-NULL, and not at
+all otherwise. -/
+theorem ktconc_destructor_once (c : Cfg) (hsz : 0 < c.size) (tr : List Ev) (s : St)
+    (h : (machine c).run (init c) tr = some s) (k : Nat) :
+    (freeCalls s.tbl).filter (fun d => d.keyId == k) = specCalls c.kd (absVal s) k := by
+  obtain ⟨_, _, ht⟩ := ktconc_reach c tr s h
+  rw [freeCalls_filter c.kd s.tbl (tinv_wf c s hsz ht) k, tinv_tget c s ht k]
+  rfl
+
+/-- the free event itself is only accepted when nobody is inside the table -/
+theorem ktconc_free_when_quiescent (c : Cfg) (tr : List Ev) (s s' : St) (h : (machine c).run (init c) tr = some s)
+    (hf : (machine c).step s .free = some s') : (∀ a, s.pc a = .idle) ∧ s'.tbl = s.tbl ∧ s'.live = false := by
+  obtain ⟨_, hp, _⟩ := ktconc_reach c tr s h
+  have hst := exec_sound c s .free s' hp hf
+  cases hst with
+  | free hall _ => exact ⟨hall, rfl, rfl⟩
+
+def exCfg : Cfg := { g := ⟨108, 32, 8, 16, 32⟩, size := 2, kd := fun k => if k = 4 then 7 else 0 }
+
+/-- non-vacuity: actors 0 and 1 insert the colliding new keys 2 and 4 (bucket 0 of a 2-bucket
+table); both finish their lock-free walk at the empty bucket head before either appends; actor 1's
+re-walk under the lock finds actor 0's element and appends behind it; actor 2's get of key 2
+overlaps; afterwards both keys are present. -/
+def okRun : List Ev :=
+  [.startSet 0 ⟨2, 0⟩ 20 true, .startSet 1 ⟨4, 7⟩ 40 true, .startGet 2 2,
+   .load 0 0 0 false, .load 1 0 0 false, .load 2 0 0 false, .endGet 2 0,
+   .acquire 0, .load 0 0 0 false, .storeLink 0 0 0, .release 0, .endSet 0 true,
+   .acquire 1, .load 1 0 0 true, .load 1 0 1 false, .storeLink 1 0 1, .release 1, .endSet 1 true,
+   .startGet 2 4, .load 2 0 0 true, .load 2 0 1 true, .readVal 2, .endGet 2 40,
+   .startSet 0 ⟨4, 7⟩ 41 true, .load 0 0 0 true, .load 0 0 1 true, .storeVal 0, .endSet 0 true, .free]
+
+example : ((machine exCfg).run (init exCfg) okRun).isSome = true := by decide
+
+example : (((machine exCfg).run (init exCfg) okRun).map fun s =>
+    (tget s.tbl 2, tget s.tbl 4, freeCalls s.tbl, s.hist 4)) = some (20, 41, [⟨4, 7, 41⟩], [40, 41]) := by decide
+
+/-- rejected trace: the same race without the re-walk — actor 1 stores its element into the link
+it remembered from the lock-free walk (link 0), which is no longer the tail.  Not a run. -/
+example : (machine exCfg).run (init exCfg)
+    [.startSet 0 ⟨2, 0⟩ 20 true, .startSet 1 ⟨4, 7⟩ 40 true, .load 0 0 0 false, .load 1 0 0 false,
+     .acquire 0, .load 0 0 0 false, .storeLink 0 0 0, .release 0, .endSet 0 true,
+     .acquire 1, .storeLink 1 0 0] = none := by decide
+
+/-- and even with the load: a publishing store into a non-tail link is rejected by the tail guard
+(here the state is forged by hand: actor 1 about to publish at link 0 of a chain of length 1) -/
+example :
+    let s0 := ((machine exCfg).run (init exCfg)
+      [.startSet 0 ⟨2, 0⟩ 20 true, .load 0 0 0 false, .acquire 0, .load 0 0 0 false, .storeLink 0 0 0,
+       .release 0, .endSet 0 true])
+    (s0.bind fun s => (machine exCfg).step { s with pc := upd s.pc 1 (.pub ⟨4, 7⟩ 40 true 0 1), lock := some 1 }
+      (.storeLink 1 0 0)) = none := by decide
+
+end conc
 
 end ArgoVerif.Props.C16
